@@ -11627,6 +11627,18 @@ func (p *parser) visitAndAppendStmt(stmts []js_ast.Stmt, stmt js_ast.Stmt) []js_
 		p.popScope()
 		p.enclosingNamespaceArgRef = oldEnclosingNamespaceArgRef
 
+		// Remove unused import-equals statements inside the namespace, since those
+		// likely correspond to types instead of values (the same thing is done for
+		// the top-level statements of the file). This can be done now because an
+		// import-equals statement that isn't exported can only be used in here.
+		for {
+			result := p.scanForUnusedTSImportEquals(stmtsInsideNamespace)
+			stmtsInsideNamespace = result.stmts
+			if !result.removedImportEquals || !result.keptImportEquals {
+				break
+			}
+		}
+
 		// Generate a closure for this namespace
 		stmts = p.generateClosureForTypeScriptNamespaceOrEnum(
 			stmts, stmt.Loc, s.IsExport, s.Name.Loc, s.Name.Ref, s.Arg, stmtsInsideNamespace)
